@@ -12,6 +12,7 @@
         was stored" can be stated for every variant of an entry.
     Definitions only.  Component ["pipex.run"] (harness/src/c04x.rs). *)
 From KV Require Export Bytes RustInt Range CacheControl Cache Fixture.
+From KV Require Import RuleSet.
 Open Scope N_scope.
 
 (** ---- what the layer below returns ---- *)
@@ -345,8 +346,16 @@ Definition compute_x (default_ext : bool) (handlers : list hspec) (xhandlers : l
 (** the request whose path selects the vary rules: after the repair the URI the response is cached under *)
 Definition vary_req (fix_ovkey : bool) (r : request) (ov : option (bytes * option bytes)) : request :=
   if fix_ovkey then match ov with Some (p, q) => mkReq (rq_method r) p q (rq_headers r) (rq_addr r) | None => r end else r.
+(** the vary rules of a path: [Vary::rules_from_path] = [extensions::RuleSet::get] (Model/RuleSet.v, C14: [rs_add] = [add_mut], called by the
+    harness in the order of the configuration's list; [rs_get] = first match of the sorted vector) — the exact rule, else the longest
+    pattern "<prefix>*" whose prefix starts the path; no rule = [Settings::empty()] *)
+Definition rules_for_x (p : bytes) (rules : list (bytes * list vrule)) : list vrule :=
+  match rs_get (rs_build rs_add rules) p with Some rs => rs | None => [] end.
+(** [VariedResponse::get_headers_for_request] over a rule list *)
+Definition tuple_of_rules (rs : list vrule) (r : request) : tuple :=
+  map (fun '(n, xf, d) => match header_text n r with Some v => xform xf v | None => d end) rs.
 Definition vary_tuple_x (fix_ovkey : bool) (rules : list (bytes * list vrule)) (r : request) (ov : option (bytes * option bytes)) : tuple :=
-  vary_tuple_fix rules (vary_req fix_ovkey r ov).
+  tuple_of_rules (rules_for_x (rq_path (vary_req fix_ovkey r ov)) rules) (vary_req fix_ovkey r ov).
 Definition vary_header_x (fix_ovkey : bool) (rules : list (bytes * list vrule)) (r0 : request) (ov : option (bytes * option bytes)) (x : fatx) : list (bytes * bytes) :=
   let r := vary_req fix_ovkey r0 ov in
   if fx_len x =? 0 then []
@@ -354,7 +363,7 @@ Definition vary_header_x (fix_ovkey : bool) (rules : list (bytes * list vrule)) 
     let no_range := is_stream x && negb (match assoc (B "vary") (f_headers (fx_fat x)) with
                                          | Some v => to_str_ok v && contains_sub (B "range") v | None => false end) in
     [(B "vary", (if no_range then B "accept-encoding" else B "accept-encoding, range") ++
-                concat (map (fun '(n, _, _) => B ", " ++ n) (rules_for (rq_path r) rules)))].
+                concat (map (fun '(n, _, _) => B ", " ++ n) (rules_for_x (rq_path r) rules)))].
 
 (** status filter menu: 0 default, 1 cache everything, 2 cache only 200 *)
 Definition sfilter_fix (id : N) (s : N) : bool :=
